@@ -1,19 +1,576 @@
 package main
 
 import (
+	"encoding/json"
+	"flag"
 	"fmt"
+	"os"
+	"path/filepath"
+	"sort"
+	"strings"
+	"sync"
+	"time"
+
 	"golang.org/x/tools/go/packages"
 	"golang.org/x/tools/go/ssa"
 	"golang.org/x/tools/go/ssa/ssautil"
 )
 
-func main() {
-	cfg := &packages.Config{Mode: packages.LoadAllSyntax, Dir: "/repo"}
-	pkgs, err := packages.Load(cfg, "./pkg/board")
-	if err != nil {
-		panic(err)
+const modPath = "github.com/herohde/morlock"
+
+var (
+	repoDir  = "/repo"
+	verifDir = "/verif"
+)
+
+type Obligation struct {
+	Name       string   `json:"name"`
+	Pkg        string   `json:"pkg"`
+	Entry      string   `json:"entry"`
+	Tiers      []string `json:"tiers"`
+	NoMerge    []string `json:"nomerge"`
+	Unwind     int      `json:"unwind"`
+	TimeoutMs  int      `json:"timeout_ms"`
+	Solver     string   `json:"solver"`
+	NoMergeIfs bool     `json:"no_merge_ifs"`
+	NoMergeCalls bool   `json:"no_merge_calls"`
+	MaxSteps   int      `json:"max_steps"`
+	Bound      string   `json:"bound"`
+	MaxViol    int      `json:"max_viol"`
+	Twin       bool     `json:"twin"` // vacuity twin: must be violated
+	Env        map[string]string `json:"env"`
+}
+
+type Spec struct {
+	Property    string       `json:"property"`
+	Assumptions []string     `json:"assumptions"`
+	Outside     []string     `json:"outside"`
+	Obligations []Obligation `json:"obligations"`
+	ExtraPkgs   []string     `json:"extra_pkgs"`
+}
+
+type KnownFinding struct {
+	Property   string `json:"property"`
+	Obligation string `json:"obligation"`
+	Msg        string `json:"msg"`
+	What       string `json:"what"`
+	Status     string `json:"status"` // "known" | "fixed"
+	Commit     string `json:"commit,omitempty"`
+}
+
+func hasTier(o *Obligation, tier string) bool {
+	if len(o.Tiers) == 0 {
+		return true
 	}
-	prog, spkgs := ssautil.AllPackages(pkgs, ssa.InstantiateGenerics)
+	for _, t := range o.Tiers {
+		if t == tier {
+			return true
+		}
+	}
+	return false
+}
+
+// ---------------- loading ----------------
+
+func harnessFiles(pkg string) []string {
+	dir := filepath.Join(verifDir, "harness", pkg)
+	ents, _ := os.ReadDir(dir)
+	var out []string
+	for _, e := range ents {
+		if strings.HasSuffix(e.Name(), ".go") {
+			out = append(out, filepath.Join(dir, e.Name()))
+		}
+	}
+	sort.Strings(out)
+	return out
+}
+
+func pkgNameOf(dir string) string {
+	ents, _ := os.ReadDir(dir)
+	for _, e := range ents {
+		if strings.HasSuffix(e.Name(), ".go") && !strings.HasSuffix(e.Name(), "_test.go") {
+			b, _ := os.ReadFile(filepath.Join(dir, e.Name()))
+			for _, l := range strings.Split(string(b), "\n") {
+				l = strings.TrimSpace(l)
+				if strings.HasPrefix(l, "package ") {
+					return strings.Fields(l)[1]
+				}
+			}
+		}
+	}
+	return filepath.Base(dir)
+}
+
+const primsSym = `package %s
+
+func nondetU64(name string) uint64
+func nondetU32(name string) uint32
+func nondetU16(name string) uint16
+func nondetU8(name string) uint8
+func nondetI64(name string) int64
+func nondetI32(name string) int32
+func nondetI16(name string) int16
+func nondetI8(name string) int8
+func nondetInt(name string) int
+func nondetBool(name string) bool
+func nondetF32(name string) float32
+func nondetF64(name string) float64
+func nondetRune(name string) rune
+func verifAssume(c bool)
+func verifAssert(c bool, msg string)
+func verifReach(tag string)
+func verifNote(s string)
+func verifSplit(v uint64, lo, hi uint64) uint64
+func verifIsSymbolic(v uint64) bool
+`
+
+const primsReplay = `package %s
+
+import "math"
+
+var verifVals []uint64
+var verifPos int
+
+func verifNext() uint64 {
+	if verifPos >= len(verifVals) {
+		panic("VERIF-REPLAY-EXHAUSTED")
+	}
+	v := verifVals[verifPos]
+	verifPos++
+	return v
+}
+func nondetU64(name string) uint64   { return verifNext() }
+func nondetU32(name string) uint32   { return uint32(verifNext()) }
+func nondetU16(name string) uint16   { return uint16(verifNext()) }
+func nondetU8(name string) uint8     { return uint8(verifNext()) }
+func nondetI64(name string) int64    { return int64(verifNext()) }
+func nondetI32(name string) int32    { return int32(verifNext()) }
+func nondetI16(name string) int16    { return int16(verifNext()) }
+func nondetI8(name string) int8      { return int8(verifNext()) }
+func nondetInt(name string) int      { return int(verifNext()) }
+func nondetBool(name string) bool    { return verifNext() != 0 }
+func nondetF32(name string) float32  { return math.Float32frombits(uint32(verifNext())) }
+func nondetF64(name string) float64  { return math.Float64frombits(verifNext()) }
+func nondetRune(name string) rune    { return rune(int32(uint32(verifNext()))) }
+func verifAssume(c bool) {
+	if !c {
+		panic("VERIF-ASSUME-FAILED")
+	}
+}
+func verifAssert(c bool, msg string) {
+	if !c {
+		panic("VERIF-ASSERT-FAILED: " + msg)
+	}
+}
+func verifReach(tag string)                     {}
+func verifNote(s string)                        {}
+func verifSplit(v uint64, lo, hi uint64) uint64 { return v }
+func verifIsSymbolic(v uint64) bool             { return false }
+`
+
+func buildOverlay(pkgs []string, replay bool) map[string][]byte {
+	ov := map[string][]byte{}
+	for _, p := range pkgs {
+		dir := filepath.Join(repoDir, p)
+		name := pkgNameOf(dir)
+		for _, hf := range harnessFiles(p) {
+			b, err := os.ReadFile(hf)
+			if err != nil {
+				continue
+			}
+			ov[filepath.Join(dir, "zz_verif_"+filepath.Base(hf))] = b
+		}
+		if replay {
+			ov[filepath.Join(dir, "zz_verif_prims.go")] = []byte(fmt.Sprintf(primsReplay, name))
+		} else {
+			ov[filepath.Join(dir, "zz_verif_prims.go")] = []byte(fmt.Sprintf(primsSym, name))
+		}
+	}
+	// runtime replacement package
+	rt := filepath.Join(verifDir, "harness", "verifrt")
+	ents, _ := os.ReadDir(rt)
+	for _, e := range ents {
+		if strings.HasSuffix(e.Name(), ".go") {
+			b, _ := os.ReadFile(filepath.Join(rt, e.Name()))
+			ov[filepath.Join(repoDir, "verifrt", e.Name())] = b
+		}
+	}
+	return ov
+}
+
+func loadProgram(pkgs []string) (*Program, error) {
+	ov := buildOverlay(pkgs, false)
+	cfg := &packages.Config{
+		Mode:    packages.LoadAllSyntax,
+		Dir:     repoDir,
+		Overlay: ov,
+		Env:     append(os.Environ(), "GOFLAGS=-mod=mod", "GOPROXY=off", "GOSUMDB=off", "GOTOOLCHAIN=local"),
+	}
+	var pats []string
+	for _, p := range pkgs {
+		pats = append(pats, "./"+p)
+	}
+	hasRT := false
+	for k := range ov {
+		if strings.HasPrefix(k, filepath.Join(repoDir, "verifrt")) {
+			hasRT = true
+		}
+	}
+	if hasRT {
+		pats = append(pats, "./verifrt")
+	}
+	lp, err := packages.Load(cfg, pats...)
+	if err != nil {
+		return nil, err
+	}
+	var errs []string
+	packages.Visit(lp, nil, func(p *packages.Package) {
+		for _, e := range p.Errors {
+			errs = append(errs, e.Error())
+		}
+	})
+	if len(errs) > 0 {
+		return nil, fmt.Errorf("package load errors:\n%s", strings.Join(errs, "\n"))
+	}
+	prog, spkgs := ssautil.AllPackages(lp, ssa.InstantiateGenerics)
 	prog.Build()
-	fmt.Println(len(spkgs), spkgs[0].Func("BitMask"))
+	p := &Program{prog: prog, pkgs: map[string]*ssa.Package{}, globals: map[*ssa.Global]int{}, baseHeap: map[int]Value{}, tabCache: map[*Agg]*Table{}}
+	for _, sp := range spkgs {
+		if sp != nil {
+			p.pkgs[sp.Pkg.Path()] = sp
+		}
+	}
+	for _, sp := range prog.AllPackages() {
+		p.pkgs[sp.Pkg.Path()] = sp
+	}
+	return p, nil
+}
+
+// runInits allocates all globals and runs the init functions of the module's
+// packages concretely in the interpreter.
+func (p *Program) runInits(cfg *Config) error {
+	st := &State{heap: map[int]Value{}}
+	// allocate globals (zero values); unsupported types get a nil cell
+	for _, sp := range p.prog.AllPackages() {
+		names := make([]string, 0, len(sp.Members))
+		for n := range sp.Members {
+			names = append(names, n)
+		}
+		sort.Strings(names)
+		for _, n := range names {
+			g, ok := sp.Members[n].(*ssa.Global)
+			if !ok {
+				continue
+			}
+			st.nextObj++
+			id := st.nextObj
+			p.globals[g] = id
+			func() {
+				defer func() {
+					if r := recover(); r != nil {
+						st.heap[id] = nil
+					}
+				}()
+				st.heap[id] = zeroValue(derefType(g.Type()))
+			}()
+		}
+	}
+	icfg := *cfg
+	icfg.MergeCalls = false
+	icfg.MergeIfs = false
+	icfg.Unwind = 1 << 30
+	icfg.MaxSteps = 0
+	ex := &Exec{p: p, ctx: NewTermCtx(), cfg: &icfg, rep: NewReport()}
+	ex.initMode = true
+	// order: dependencies first (ssa init functions call their imports' init; we
+	// intercept init calls of non-module packages)
+	var mods []*ssa.Package
+	for _, sp := range p.prog.AllPackages() {
+		if strings.HasPrefix(sp.Pkg.Path(), modPath) {
+			mods = append(mods, sp)
+		}
+	}
+	sort.Slice(mods, func(i, j int) bool { return mods[i].Pkg.Path() < mods[j].Pkg.Path() })
+	for _, sp := range mods {
+		initFn := sp.Func("init")
+		if initFn == nil {
+			continue
+		}
+		st.threads = []*Thread{{id: 0}}
+		st.cur = 0
+		st.ended = false
+		ex.pushFrame(st, st.threads[0], initFn, nil, nil, nil)
+		ex.explore([]*State{st}, nil)
+		if len(ex.rep.Unsupported) > 0 {
+			return fmt.Errorf("init of %s: %s", sp.Pkg.Path(), ex.rep.Unsupported[0])
+		}
+		if len(ex.rep.Violations) > 0 {
+			return fmt.Errorf("init of %s panicked: %s", sp.Pkg.Path(), ex.rep.Violations[0].Msg)
+		}
+	}
+	p.baseHeap = st.heap
+	p.baseNext = st.nextObj
+	p.initSteps = ex.rep.Steps
+	return nil
+}
+
+// ---------------- tasks ----------------
+
+type Task struct {
+	ob     *Obligation
+	prefix []uint64
+}
+
+type ObResult struct {
+	ob       *Obligation
+	rep      *Report
+	stats    SolverStats
+	tasks    int
+	wall     time.Duration
+}
+
+func mergeReports(dst, src *Report) {
+	dst.Paths += src.Paths
+	dst.Asserts += src.Asserts
+	dst.Proven += src.Proven
+	dst.Trivial += src.Trivial
+	dst.Violations = append(dst.Violations, src.Violations...)
+	dst.Unknowns = append(dst.Unknowns, src.Unknowns...)
+	dst.Unsupported = append(dst.Unsupported, src.Unsupported...)
+	dst.UnwoundOut += src.UnwoundOut
+	dst.AssumePruned += src.AssumePruned
+	for k, v := range src.Reached {
+		dst.Reached[k] += v
+	}
+	for _, s := range src.Samples {
+		if len(dst.Samples) < 8 {
+			dst.Samples = append(dst.Samples, s)
+		}
+	}
+	for _, w := range src.Witnesses {
+		if len(dst.Witnesses) < 2 {
+			dst.Witnesses = append(dst.Witnesses, w)
+		}
+	}
+	dst.Forks += src.Forks
+	dst.Merges += src.Merges
+	dst.MergeFails += src.MergeFails
+	dst.Steps += src.Steps
+	for k := range src.Funcs {
+		dst.Funcs[k] = true
+	}
+	for k := range src.Stubs {
+		dst.Stubs[k] = true
+	}
+	if src.MaxTermSize > dst.MaxTermSize {
+		dst.MaxTermSize = src.MaxTermSize
+	}
+}
+
+func runTask(p *Program, t Task, base Config, wid int) (*Report, SolverStats, [][]uint64) {
+	cfg := base
+	ob := t.ob
+	cfg.MergeCalls = !ob.NoMergeCalls
+	cfg.MergeIfs = !ob.NoMergeIfs
+	cfg.NoMerge = ob.NoMerge
+	if ob.Unwind > 0 {
+		cfg.Unwind = ob.Unwind
+	}
+	if ob.TimeoutMs > 0 {
+		cfg.TimeoutMs = ob.TimeoutMs
+	}
+	if ob.Solver != "" && base.SolverKind == "" {
+		cfg.SolverKind = ob.Solver
+	}
+	if ob.MaxSteps > 0 {
+		cfg.MaxSteps = ob.MaxSteps
+	}
+	if ob.MaxViol > 0 {
+		cfg.MaxViol = ob.MaxViol
+	}
+	cfg.SplitPrefix = t.prefix
+	if cfg.SplitPrefix == nil {
+		cfg.SplitPrefix = []uint64{}
+	}
+	logp := ""
+	if cfg.LogSMT != "" {
+		logp = fmt.Sprintf("%s.%s.%d.smt2", cfg.LogSMT, ob.Name, wid)
+	}
+	sol := NewSolver(cfg.SolverKind, cfg.TimeoutMs, logp)
+	defer sol.Close()
+	ex := &Exec{p: p, ctx: NewTermCtx(), sol: sol, cfg: &cfg, rep: NewReport(), splitTasks: true}
+	ex.applyNoMerge()
+	sp := p.pkgs[modPath+"/"+ob.Pkg]
+	if sp == nil {
+		ex.rep.Unsupported = append(ex.rep.Unsupported, "package not loaded: "+ob.Pkg)
+		return ex.rep, sol.Stats, nil
+	}
+	fn := sp.Func(ob.Entry)
+	if fn == nil {
+		ex.rep.Unsupported = append(ex.rep.Unsupported, "entry not found: "+ob.Entry)
+		return ex.rep, sol.Stats, nil
+	}
+	st := &State{heap: map[int]Value{}, nextObj: p.baseNext, model: Model{}}
+	st.threads = []*Thread{{id: 0}}
+	ex.pushFrame(st, st.threads[0], fn, nil, nil, nil)
+	ex.explore([]*State{st}, nil)
+	return ex.rep, sol.Stats, ex.rep.SubTasks
+}
+
+func (ex *Exec) applyNoMerge() {
+	// mark functions by substring match lazily: wrap info lookup
+	ex.noMergePats = ex.cfg.NoMerge
+}
+
+// ---------------- main ----------------
+
+func main() {
+	if len(os.Args) < 2 {
+		fmt.Fprintln(os.Stderr, "usage: gosym run|selftest ...")
+		os.Exit(2)
+	}
+	switch os.Args[1] {
+	case "run":
+		os.Exit(cmdRun(os.Args[2:]))
+	default:
+		fmt.Fprintln(os.Stderr, "unknown command")
+		os.Exit(2)
+	}
+}
+
+func cmdRun(args []string) int {
+	fs := flag.NewFlagSet("run", flag.ExitOnError)
+	specPath := fs.String("spec", "", "spec json")
+	tier := fs.String("tier", "quick", "quick|thorough")
+	only := fs.String("only", "", "run only the named obligation(s), comma separated")
+	jobs := fs.Int("j", 16, "workers")
+	verbose := fs.Bool("v", false, "verbose")
+	solver := fs.String("solver", "", "override solver (z3|z3-new|cvc5)")
+	logsmt := fs.String("logsmt", "", "prefix for smt transcripts")
+	noReplay := fs.Bool("noreplay", false, "skip native replay")
+	evidence := fs.String("evidence", "", "evidence output path (default /verif/evidence/<id>.json)")
+	fs.Parse(args)
+	t0 := time.Now()
+	b, err := os.ReadFile(*specPath)
+	if err != nil {
+		fmt.Println("INCONCLUSIVE cannot read spec:", err)
+		return 2
+	}
+	var spec Spec
+	if err := json.Unmarshal(b, &spec); err != nil {
+		fmt.Println("INCONCLUSIVE bad spec:", err)
+		return 2
+	}
+	seed := 0
+	fmt.Sscan(os.Getenv("VERIF_SEED"), &seed)
+	onlySet := map[string]bool{}
+	for _, o := range strings.Split(*only, ",") {
+		if o != "" {
+			onlySet[o] = true
+		}
+	}
+	var obs []*Obligation
+	pkgSet := map[string]bool{}
+	for i := range spec.Obligations {
+		o := &spec.Obligations[i]
+		if len(onlySet) > 0 {
+			if !onlySet[o.Name] {
+				continue
+			}
+		} else if !hasTier(o, *tier) {
+			continue
+		}
+		obs = append(obs, o)
+		pkgSet[o.Pkg] = true
+	}
+	for _, p := range spec.ExtraPkgs {
+		pkgSet[p] = true
+	}
+	var pkgs []string
+	for p := range pkgSet {
+		pkgs = append(pkgs, p)
+	}
+	sort.Strings(pkgs)
+	if len(obs) == 0 {
+		fmt.Println("INCONCLUSIVE no obligations selected")
+		return 2
+	}
+	prog, err := loadProgram(pkgs)
+	if err != nil {
+		fmt.Println("INCONCLUSIVE cannot load/compile harness against the current tree:", err)
+		writeEvidence(&spec, *tier, seed, nil, nil, time.Since(t0), *evidence, []string{"load failed: " + err.Error()}, 0)
+		return 2
+	}
+	base := Config{Unwind: 300, TimeoutMs: 60000, SolverKind: *solver, Verbose: *verbose, LogSMT: *logsmt, MaxViol: 3}
+	if err := prog.runInits(&base); err != nil {
+		fmt.Println("INCONCLUSIVE package initialisation failed in the interpreter:", err)
+		return 2
+	}
+	tInit := time.Since(t0)
+	if *verbose {
+		fmt.Fprintf(os.Stderr, "loaded+init in %v (%d init steps)\n", tInit, prog.initSteps)
+	}
+
+	// task pool
+	results := map[string]*ObResult{}
+	for _, o := range obs {
+		results[o.Name] = &ObResult{ob: o, rep: NewReport()}
+	}
+	var mu sync.Mutex
+	queue := []Task{}
+	for _, o := range obs {
+		queue = append(queue, Task{ob: o})
+	}
+	pending := 0
+	cond := sync.NewCond(&mu)
+	var wg sync.WaitGroup
+	for w := 0; w < *jobs; w++ {
+		wg.Add(1)
+		go func(wid int) {
+			defer wg.Done()
+			for {
+				mu.Lock()
+				for len(queue) == 0 && pending > 0 {
+					cond.Wait()
+				}
+				if len(queue) == 0 {
+					mu.Unlock()
+					cond.Broadcast()
+					return
+				}
+				// seed permutes order only
+				idx := 0
+				if seed != 0 {
+					idx = (seed*7919 + len(queue)) % len(queue)
+					if idx < 0 {
+						idx = -idx
+					}
+				}
+				t := queue[idx]
+				queue = append(queue[:idx], queue[idx+1:]...)
+				pending++
+				mu.Unlock()
+				ts := time.Now()
+				rep, stats, subs := runTask(prog, t, base, wid)
+				mu.Lock()
+				r := results[t.ob.Name]
+				mergeReports(r.rep, rep)
+				r.stats.Add(stats)
+				r.tasks++
+				r.wall += time.Since(ts)
+				for _, s := range subs {
+					queue = append(queue, Task{ob: t.ob, prefix: s})
+				}
+				pending--
+				if *verbose {
+					fmt.Fprintf(os.Stderr, "[w%d] %s %v: paths=%d asserts=%d proven=%d viol=%d unk=%d unsup=%d q=%d (%.1fs solver, max %.1fs) in %.1fs; +%d subtasks\n", wid, t.ob.Name, t.prefix, rep.Paths, rep.Asserts, rep.Proven, len(rep.Violations), len(rep.Unknowns), len(rep.Unsupported), stats.Queries, stats.Dur.Seconds(), stats.MaxQuery.Seconds(), time.Since(ts).Seconds(), len(subs))
+				}
+				mu.Unlock()
+				cond.Broadcast()
+			}
+		}(w)
+	}
+	wg.Wait()
+
+	return finish(&spec, *tier, seed, obs, results, t0, *evidence, *noReplay, prog, *verbose)
 }
